@@ -29,7 +29,8 @@ class EngineC14(HistEngine):
         ops = []
         used_names: set[str] = set()
         for _ in range(n):
-            k = ch.weighted([("insn", 10), ("stmt", w_stmt), ("fresh", w_fresh), ("fresh2", w_fresh // 2), ("new", w_new if len(insts) < 3 else 0),
+            k = ch.weighted([("insn", 10), ("stmt", w_stmt), ("fresh", w_fresh), ("fresh2", w_fresh // 2), ("xform2", 2 if len(insts) > 1 else 0),
+                             ("new", w_new if len(insts) < 3 else 0),
                              ("add_sub", 1), ("parse_err", fail_w // 2), ("load", 1), ("loaded_insn", 2), ("twins", 1),
                              ("add_macro", 1), ("shortcode", 1 if ch.chance(1, 6, "sc?") else 0)], "opkind")
             if k == "new":
@@ -107,6 +108,18 @@ class EngineC14(HistEngine):
                 part = ch.choice(parts, "spart")
                 op = {"op": "stmt", "inst": inst, "code": part}
                 rname, rparts, rfmt = "stmt", [part], insts[inst]
+            elif k == "xform2":
+                same = [(a, b) for a in range(len(insts)) for b in range(len(insts)) if a != b and insts[a] == insts[b]]
+                if not same:
+                    continue
+                i1, i2 = ch.choice(same, "x2insts")
+                n2, parts2, _ = self.gen_input(ch, 0)
+                codes = [ch.choice(parts, "x2a"), ch.choice(parts2, "x2b")]
+                ok = [c_ for c_ in codes if self.ref(insts[i1], "stmt", c_, tuple(subs))["status"] == "ok"]
+                if len(ok) < 2:
+                    continue
+                ops.append({"op": "xform2", "inst": i1, "inst2": i2, "codes": codes})
+                continue
             elif k == "fresh2":
                 rfmt = ch.choice(FMTS, "ffmt")
                 n2, parts2, _ = self.gen_input(ch, 0)
@@ -216,7 +229,7 @@ class EngineC14(HistEngine):
                 if o["status"] == "ok" and got_parts != parts:
                     viol(step, "loader-parts", "", name=name, got=len(got_parts or []), want=len(parts))
                     continue
-            elif kind == "fresh2":
+            elif kind in ("fresh2", "xform2"):
                 parts = list(op["codes"])
             else:
                 parts = op["parts"] if kind in ("insn", "compile_parsed") else [op["code"]]
@@ -232,7 +245,8 @@ class EngineC14(HistEngine):
                 log.add("faulted", kind, fault["at"], fault["when"], fault["exc"], o["status"])
                 nontrivial_marks.add("fault")
                 continue
-            refs = [self.ref(fmt, name, p, tuple(subs), tuple(sorted(inst_macros.get(inst, ())))) for p in parts]
+            part_insts = [inst, op["inst2"] % len(insts)] if kind == "xform2" else [inst] * len(parts)
+            refs = [self.ref(fmt, name, p, tuple(subs), tuple(sorted(inst_macros.get(pi, ())))) for p, pi in zip(parts, part_insts)]
             exp_exc = next((r["exc"] for r in refs if r["status"] != "ok"), None)
             out.compared += 1
             compared_ops += 1
